@@ -213,6 +213,14 @@ pub mod lang;
 mod tokenizer;
 pub mod word_to_digit;
 
+/// Verification hooks (only with `--cfg text2num_verif`): expose the text tokenizer
+/// used by `replace_numbers_in_text` so that conformance harnesses can run
+/// `find_numbers` on exactly the same token stream.
+#[cfg(text2num_verif)]
+pub mod verif {
+    pub use crate::tokenizer::{tokenize, BasicToken, Tokenize, WordSplitter};
+}
+
 pub use lang::{BasicAnnotate, LangInterpreter, Language};
 pub use word_to_digit::{
     find_numbers, find_numbers_iter, replace_numbers_in_stream, replace_numbers_in_text,
